@@ -81,6 +81,12 @@ def evaluate(g, op, a):
         return ("b", bool(g.Plane(a[0]).contains(P(a[1]))))
     if op == "join_ppp3":
         return ("c", g.join(*[P(x) for x in a]).array)
+    if op == "eq_poly":
+        n = len(a) // 2
+        mk = (lambda vs: g.Segment(np.array(vs))) if n == 2 else (lambda vs: g.Polygon(np.array(vs)))
+        A, B = mk(a[:n]), mk(a[n:])
+        A2, B2 = (g.Segment if n == 2 else g.Polygon)(*[P(x) for x in a[:n]]), (g.Segment if n == 2 else g.Polygon)(*[P(x) for x in a[n:]])
+        return ("b", bool(A == B), bool(B == A), bool(A2 == B2), bool(B2 == A))
     raise MachineryError(f"operation {op} is in the specification but not in the harness")
 
 
